@@ -11,8 +11,8 @@ LEVEL = "proof"
 LEAN_MODULES = ['Sonic.Props.C02', 'Sonic.Props.C05']
 REQUIRED_THEOREMS = ["Sonic.Props.C02." + n for n in ["C02_no_fault", "C02_reads_bounded", "C02_stack_bounded", "C02_node_full", "C02_teardown_init", "C02_reusable",
                                                          "C02_no_leak"]]
-CONFIGS = [("avx2", "san"), ("sse", "san"), ("avx2", "prod"), ("sse", "prod")]
-CONFIGS_THOROUGH = CONFIGS + [("dyn", "san"), ("dyn", "prod")]
+CONFIGS = [("avx2", "san"), ("sse", "san"), ("avx2", "prod"), ("sse", "prod"), ("dyn", "san")]
+CONFIGS_THOROUGH = CONFIGS + [("dyn", "prod")]
 ENV = {"MALLOC_PERTURB_": "243"}   # glibc fills fresh blocks with 0x0C (= kStringFree: worst case for a stale node) in prod builds
 RULE = ("the C01 corpus (valid, every prefix, mutations) plus deep/uneven nesting ('[' x n ']' x m for m<=n<=80, '{\"a\":' x n, texts whose node "
         "count crosses len/2+2 with scalars following the exhausted stack), each parsed with the pool allocator, SimpleAllocator, a "
